@@ -42,6 +42,14 @@ type zzDRecv struct {
 
 func (r *zzDRecv) OnReceive(ctx context.Context, h api.HeaderMap, data buffer.IoBuffer, t api.HeaderMap) {
 	p, _ := variable.GetString(ctx, types.VarPath)
+	if data != nil {
+		p += " body=" + string(data.Bytes())
+	}
+	if t != nil {
+		if v, ok := t.Get("X-Tr"); ok {
+			p += " trailer=" + v
+		}
+	}
 	r.cb.got = append(r.cb.got, p)
 }
 func (r *zzDRecv) OnDecodeError(ctx context.Context, err error, h api.HeaderMap) {}
@@ -60,7 +68,7 @@ func (c *zzDCallbacks) NewStreamDetect(ctx context.Context, s types.StreamSender
 // a frame the server refuses with a stream error (WINDOW_UPDATE with a zero
 // increment on stream 1, or a request on stream 3 with an upper-case header
 // name) or nothing, and request /two on stream 5.
-func zzDWire(bad int) []byte {
+func zzDWire(bad, shape int) []byte {
 	var wire bytes.Buffer
 	wire.WriteString(mh2.ClientPreface)
 	fw := mh2.NewFramer(&wire, nil)
@@ -77,9 +85,21 @@ func zzDWire(bad int) []byte {
 		if badName {
 			enc.WriteField(hpack.HeaderField{Name: "X-Upper", Value: "v"})
 		}
+		if path == "/one" && shape == 2 {
+			enc.WriteField(hpack.HeaderField{Name: "trailer", Value: "x-tr"}) // trailers are announced
+		}
 		return append([]byte(nil), hbuf.Bytes()...)
 	}
-	fw.WriteHeaders(mh2.HeadersFrameParam{StreamID: 1, BlockFragment: block("/one", false), EndStream: true, EndHeaders: true})
+	// request /one: headers only, headers + body, headers + body + trailers
+	fw.WriteHeaders(mh2.HeadersFrameParam{StreamID: 1, BlockFragment: block("/one", false), EndStream: shape == 0, EndHeaders: true})
+	if shape >= 1 {
+		fw.WriteData(1, shape == 1, []byte("abc"))
+	}
+	if shape == 2 {
+		hbuf.Reset()
+		enc.WriteField(hpack.HeaderField{Name: "x-tr", Value: "v"})
+		fw.WriteHeaders(mh2.HeadersFrameParam{StreamID: 1, BlockFragment: append([]byte(nil), hbuf.Bytes()...), EndStream: true, EndHeaders: true})
+	}
 	switch bad {
 	case 1:
 		fw.WriteWindowUpdate(1, 0)
@@ -99,7 +119,8 @@ func zzDWire(bad int) []byte {
 // by definition concerns only the stream it names.
 func VerifC07_H2DispatchSegmentation() {
 	bad := verif.Choose("refused_frame_between", 3)
-	wire := zzDWire(bad)
+	shape := verif.Choose("request_one_shape", 3)
+	wire := zzDWire(bad, shape)
 	cut := verif.Choose("cut", len(wire)+1) // len(wire) = one piece
 	cb := &zzDCallbacks{}
 	conn := &zzDConn{}
@@ -113,7 +134,8 @@ func VerifC07_H2DispatchSegmentation() {
 		sc.Dispatch(rb)
 	}
 	verif.Assert(!conn.closed, "the connection was closed although at most one stream was at fault")
-	ok := len(cb.got) == 2 && cb.got[0] == "/one" && cb.got[1] == "/two"
+	one := []string{"/one", "/one body=abc", "/one body=abc trailer=v"}[shape]
+	ok := len(cb.got) == 2 && cb.got[0] == one && cb.got[1] == "/two"
 	verif.Assert(ok, "the requests handed to the proxy depend on how the client's bytes were cut into reads (or a stream error made the frames behind it wait for bytes that never come)")
 	verif.Assert(rb.Len() == 0, "complete frames are left in the read buffer after the last read")
 	verif.Cover("end")
